@@ -16,6 +16,7 @@ import (
 )
 
 var dumpAt, _ = strconv.Atoi(os.Getenv("VERIF_DUMP_AT"))
+var wantTrace = os.Getenv("VERIF_TRACE") != ""
 
 //go:linkname simSelectSeed runtime.simSelectSeed
 func simSelectSeed(s uint64)
@@ -88,6 +89,7 @@ type Sim struct {
 func NewSim(tape *Tape, rng *RNG) *Sim {
 	r := simrt.Begin()
 	r.RegisterSelf("sched")
+	simrt.Quiet() // the scheduler's own channel traffic must not order the system's goroutines for the race detector
 	return &Sim{R: r, Tape: tape, RNG: rng, Start: time.Now(), MaxSteps: 200000, TraceCap: 6000, Heartbeat: &heartbeat,
 		Pairs: map[string]struct{}{}, LastAt: map[string]string{}, hash: 1469598103934665603, ilHash: 1469598103934665603,
 		Strat: Strategy{Stay: 0.7, EnvBias: 0.3}}
@@ -110,6 +112,9 @@ func (s *Sim) note(name string, il bool) {
 
 // Logf adds a line to the decoded trace without influencing any hash or decision.
 func (s *Sim) Logf(format string, a ...any) {
+	if simrt.RaceEnabled && !wantTrace {
+		return // fmt's pooled printers are a source of noise for the race detector; traces of race runs are terse
+	}
 	if len(s.Trace) < s.TraceCap {
 		s.Trace = append(s.Trace, "    # "+fmt.Sprintf(format, a...))
 	}
